@@ -13,6 +13,14 @@
   * Lists and maps have no identity here (`==` on them is unspecified).
   * Print directives and message bundles are outside Appendix A (they belong to C03/C16/C11): a print
     with a directive and a {msg} under a bundle are `unspec`.
+
+  Corrections to the specification (clauses of the first version that demanded more than property C01
+  states; the property says that indexing PAST THE END of a list and printing undefined are errors and is
+  silent on the following, which are now `unspec`):
+    * a NEGATIVE list index (was: undefined);
+    * printing a map with two or more entries (was: entries sorted by key) or with an undefined member
+      (was: error);
+  `round(x)` / `round(x, d)`: halves away from zero, exactly (the implementation was repaired to this).
 -/
 import SoyVerif.Model.Ast
 import SoyVerif.Model.Registry
@@ -139,8 +147,13 @@ def showVal : Val → Out Bytes
   | .float f => showFloat f
   | .str s => .val s
   | .list xs => (showList xs).bind fun items => .val ([91] ++ joinWith [44, 32] items ++ [93])
-  | .map kvs => (showKvs kvs).bind fun items =>
-      .val ([123] ++ joinWith [44, 32] ((sortByKey items).map fun kv => kv.1 ++ [58, 32] ++ kv.2) ++ [125])
+  | .map kvs =>
+    -- the order of the entries and the form of an undefined member are open
+    match kvs with
+    | [] => .val [123, 125]
+    | [(_, .undefined)] => .unspec
+    | [(k, v)] => (showVal v).bind fun s => .val ([123] ++ k ++ [58, 32] ++ s ++ [125])
+    | _ => .unspec
 def showList : List Val → Out (List Bytes)
   | [] => .val []
   | x :: xs => (showVal x).bind fun s => (showList xs).bind fun r => .val (s :: r)
@@ -274,7 +287,7 @@ def access (base : Val) (nullSafe : Bool) (key : Key) (last : Bool) : Step :=
     else .stop .error
   | .list xs =>
     match key with
-    | .int i => .next (nth xs i)
+    | .int i => if i < 0 then .stop .unspec else .next (nth xs i)    -- a negative index: open
     | _ => .stop .error                   -- a list indexed by a non-integer
   | .map kvs =>
     match key with
